@@ -128,6 +128,8 @@ def addStep (d : D) (prio nSym maxc ck cd st tk td al e b rem : String) (opts : 
           match faultsOf opts with
           | none => (d, "bad-op")
           | some fl =>
+          -- a read failure (code >= 1) is unobservable on an empty source: outside the fault model's input domain
+          if nSym = 0 ∧ fl.any (fun c => decide (1 ≤ c)) = true then (d, "bad-op") else
           let (s, r) := addObject s { prio := prio, nSym := nSym, maxCount := maxc, carousel := car,
                                        start := st, target := tg, allowStop := al == 1, faults := fl }
           fin d s (match r with | some t => s!"ok {t}" | none => "ERR")
